@@ -8,7 +8,7 @@ from .. import core, gen, hist, model
 from ..session import Outcome
 from . import PropBase, steps_with_ids
 
-FAULTS = ("twin", "clear", "shrink", "zone", "clock", "stack", "clear_typing", "exhaust_scan")
+FAULTS = ("twin", "clear", "shrink", "zone", "clock", "stack", "clear_typing", "exhaust_scan", "mutate_result")
 
 
 class C01(PropBase):
@@ -80,6 +80,11 @@ class C01(PropBase):
                 if tv is not None:
                     steps.append({"op": "roundtrip", "t": t, "v": tv, "mod": rng.choice(mods), "amb": [], "twin": True})
             steps.append(step)
+            if "mutate_result" in sw and rng.random() < 0.35:
+                # the caller edits what came back (empty containers get members), then the same value goes round again
+                steps.append({"op": "mutate_result", "ref": len(steps) - 1})
+                again = copy.deepcopy({k: v_ for k, v_ in step.items() if k not in ("scan", "mid")})
+                steps.append(again)
         return {"prop": self.ID, "seed": seed, "tier": tier, "world": world, "env": env, "steps": steps_with_ids(steps), "meta": {"swarm": sw}}
 
     def comparable(self, sess, i, step):
